@@ -1,5 +1,5 @@
 (* C04 — property theorems only (the wrapper model is coq/C03/Model.v, the kernels coq/C04/Model.v). *)
-From V Require Import Common.NumFacts C03.Model C03.Proofs C04.KBase C04.Model C04.Gen_kernels C04.Proofs.
+From V Require Import Common.NumFacts C03.Model C03.Proofs C04.KBase C04.Model C04.Gen_kernels C04.Proofs C04.Homog.
 Open Scope Q_scope.
 
 (* T / P equal the specified ones in every branch that returns normally, for every oracle.
@@ -126,6 +126,22 @@ Theorem C04_PH_exact_linear : forall orc P HL HG HR,
 Proof. exact PH_exact_linear_lemma. Qed.
 Print Assumptions C04_PH_exact_linear.
 
+(* ... and with ONE volatile chemical (N = 1, _set_PH_chemical / _set_PS_chemical): between the saturated-liquid and the
+   saturated-vapour enthalpy the lever rule reproduces the specified H exactly at Tsat(P); outside, T is what
+   xsolve_T_at_HP returned for the single-phase flows (the solve contract) *)
+Theorem C04_PH_chemical_exact : forall orc c P HL HG HR,
+  (forall a b, veq a b -> HL a == HL b) -> (forall a b, veq a b -> HG a == HG b) ->
+  (forall a b f, length a = length b -> HL (vsub a (vscale f b)) == HL a - f * HL b) ->
+  (forall a b f, length a = length b -> HG (vadd a (vscale f b)) == HG a + f * HG b) ->
+  (forall k s, o_xH orc k s (o_Tsat orc P) P == HL (liq s) + HG (vap s) + HR (oth s)) ->
+  forall H m, wf (ms m) -> length (molv c) = length (idx c) -> NoDup (idx c) ->
+  (forall i, In i (idx c) -> (i < length (liq (ms m)))%nat) ->
+  let m' := ph_chemical orc c m P H in
+  (HL (liq (ms m')) + HG (vap (ms m')) + HR (oth (ms m')) == H /\ sT (ms m') = o_Tsat orc P) \/
+  (exists k s, ms m' = with_T s (o_solveT orc k s H (o_Tsat orc P) P)).
+Proof. exact ph_chemical_exact_lemma. Qed.
+Print Assumptions C04_PH_chemical_exact.
+
 (* PRECONDITION of the enthalpy clause made explicit: [setup cf st = SOk _ _] -- at least one volatile chemical is present
    (the quantifier of the property: "compositions of 1-5 volatile chemicals with or without ... gas and ... solute").
    Without any volatile chemical _setup raises NoEquilibrium, VLE.__call__ stores P and returns: no oracle is consulted,
@@ -208,59 +224,50 @@ Proof.
   all: intros i; do 3 (destruct i as [|i]; [vm_compute; reflexivity|]); vm_compute; destruct i; reflexivity.
 Qed.
 
-(* scaling the feed scales the products.  FULL STATEMENT (not proved as a whole; measured on the real code by oracle() in
-   props/C04.py): for oracles related by [orc_scaled] -- same bubble / dew / bracketing answers, raw vapour flows, enthalpies
-   and entropies multiplied by k, i.e. solvers that depend on the normalised composition only -- the flash of the feed
-   multiplied by k is the flash of the feed, multiplied by k *)
-Definition scale_st (k : Q) (s : vst) : vst :=
-  mkst (vscale k (liq s)) (vscale k (vap s)) (map (vscale k) (oth s)) (sT s) (sP s).
-Definition st_equiv (a b : vst) : Prop :=
-  veq (liq a) (liq b) /\ veq (vap a) (vap b) /\ Forall2 veq (oth a) (oth b) /\ sT a == sT b /\ sP a == sP b.
-Definition orc_scaled (k : Q) (o o' : oracle) : Prop :=
-  o_Tc o' = o_Tc o /\ o_Psat o' = o_Psat o /\ o_Tsat o' = o_Tsat o /\
-  o_lim_light o' = o_lim_light o /\ o_lim_heavy o' = o_lim_heavy o /\
-  o_bubble o' = o_bubble o /\ o_dew o' = o_dew o /\ o_iq o' = o_iq o /\
-  (forall t, veq (o_v o' t) (vscale k (o_v o t))) /\
-  (forall t s s' T P, st_equiv s' (scale_st k s) -> o_xH o' t s' T P == k * o_xH o t s T P) /\
-  (forall t g m m' T P, veq m' (vscale k m) -> o_Hp o' t g m' T P == k * o_Hp o t g m T P) /\
-  (forall t s s' H T P, st_equiv s' (scale_st k s) -> o_solveT o' t s' (k * H) T P == o_solveT o t s H T P).
-Definition scale_spec (k : Q) (sp : spec) : spec :=
-  match sp with
-  | SpTH T H => SpTH T (k * H) | SpTS T Sv => SpTS T (k * Sv)
-  | SpPH P H => SpPH P (k * H) | SpPS P Sv => SpPS P (k * Sv)
-  | sp => sp
-  end.
-Definition C04_vle_homogeneous_statement : Prop :=
-  forall cf orc orc' k sp st, 0 < k -> orc_scaled k orc orc' ->
+(* Scaling the feed scales the products: for k > 0 and solver oracles that depend on the normalised composition only
+   ([orc_scaled]: same bubble / dew / bracketing answers and property constants, raw vapour flows, enthalpies and
+   entropies multiplied by k, xsolve_T_at_HP/SP invariant when H is multiplied by k), the flash of the feed multiplied
+   by k -- with a specified H or S multiplied by k -- is the flash of the feed, multiplied by k: same branch, same raise,
+   flows scaled pointwise, T and P equal (as rationals after a final xsolve_T).  Every specification pair, every branch:
+   clips, lever rule, boundary branches, bracketing loops, the vaporise / condense correction, the retry of set_PS. *)
+Theorem C04_vle_homogeneous : forall k, 0 < k -> forall orc orc', orc_scaled k orc orc' -> forall cf sp st,
   match vle cf orc sp st, vle cf orc' (scale_spec k sp) (scale_st k st) with
-  | VOk a, VOk b => st_equiv b (scale_st k a)
+  | VOk a, VOk b =>
+      Forall2 (fun x y => y == k * x) (liq a) (liq b) /\ Forall2 (fun x y => y == k * x) (vap a) (vap b) /\
+      Forall2 (Forall2 (fun x y => y == k * x)) (oth a) (oth b) /\ sT b == sT a /\ sP b == sP a
   | VErr e _, VErr e' _ => e = e'
   | _, _ => False
   end.
+Proof. exact vle_homogeneous_lemma. Qed.
+Print Assumptions C04_vle_homogeneous.
 
-(* PARTIAL: the in-repo facts that make it hold.  The clipping of _solve_v commutes with a positive scale, the closed-form
-   Rachford-Rice root does not depend on the scale of z, and the Rachford-Rice function is homogeneous in z (so its roots
-   do not depend on the scale of z either).  Missing: the simulation argument through every branch of the wrapper. *)
-Theorem C04_vle_homogeneous_partial :
+(* the kernel-level facts behind it (kept from the earlier partial result) *)
+Theorem C04_vle_homogeneous_kernels :
   (forall k v m, 0 < k -> clip1 (k * v) (k * m) == k * clip1 v m) /\
   (forall k z1 z2 K1 K2 V, ~ k == 0 -> rr2 z1 z2 K1 K2 = Ok V ->
      exists V', rr2 (k * z1) (k * z2) K1 K2 = Ok V' /\ V' == V) /\
   (forall k zs Ks V, rr (vscale k zs) Ks V == k * rr zs Ks V).
 Proof. split; [exact clip1_scale|split; [exact rr2_scale|exact rr_scale]]. Qed.
-Print Assumptions C04_vle_homogeneous_partial.
+Print Assumptions C04_vle_homogeneous_kernels.
 
-(* the equilibrium objects of VLE._setup: after ANY history of BubblePoint / DewPoint constructor calls in the process (other
-   packages over the same Chemical objects included) the instance _setup receives for the package (Gamma g, Phi p, PCF f)
-   was built with exactly g, p, f -- the flash uses the activity model of the stream's own package *)
-Theorem C04_setup_objects_of_own_package : forall ks cs g p f i a,
-  fst (C08.Model.cache_new eq_build (snd (C08.Model.cache_run eq_build ([], 0%nat) ks)) (cs, g, p, f)) = Ok (i, a) ->
-  a = (g, p, f).
-Proof. exact setup_gamma_lemma. Qed.
-Print Assumptions C04_setup_objects_of_own_package.
-Example C04_setup_objects_nonvacuous :
-  setup_objects [([0; 1], 1, 1, 1); ([0; 1], 2, 1, 1); ([0; 1], 1, 1, 1)]%nat
-  = [Ok (0, (1, 1, 1)); Ok (1, (2, 1, 1)); Ok (0, (1, 1, 1))]%nat.
-Proof. vm_compute. reflexivity. Qed.
+(* the oracle relation is satisfiable, and an instance: the flash of section "non-vacuity" below with everything doubled *)
+Definition orc_h := mkorc 0 (fun _ => 0) (fun _ => 0) 0 0 (fun _ => (200000, [1#2; 1#2])) (fun _ => (50000, [1#2; 1#2]))
+  (fun _ => [-1; 9]) (fun _ => ([], 0)) (fun _ _ _ _ => 0) (fun _ _ _ _ _ => 0) (fun _ _ _ _ _ => 0).
+Definition orc_h2 := mkorc 0 (fun _ => 0) (fun _ => 0) 0 0 (fun _ => (200000, [1#2; 1#2])) (fun _ => (50000, [1#2; 1#2]))
+  (fun _ => [-2; 18]) (fun _ => ([], 0)) (fun _ _ _ _ => 0) (fun _ _ _ _ _ => 0) (fun _ _ _ _ _ => 0).
+Example C04_vle_homogeneous_nonvacuous :
+  orc_scaled 2 orc_h orc_h2 /\
+  vle (mkcfg [KVle; KVle; KLight; KHeavy] [0; 0; 0; 2] [18; 46; 28; 58]) orc_h2 (SpTP 350 101325)
+      (scale_st 2 (mkst [4; 2; 1; 0] [0; 2; 0; 3] [[1; 1; 1; 1]] 300 101325))
+  = VOk (mkst [2 * 4 + 2 * 0 - 0; 2 * 2 + 2 * 2 - (2 * 2 + 2 * 2); 0; 2 * 0 + 2 * 3]
+              [0; 2 * 2 + 2 * 2; 2 * 1 + 2 * 0; 0] [[2 * 1; 2 * 1; 2 * 1; 2 * 1]] 350 101325).
+Proof.
+  split.
+  - unfold orc_scaled, orc_h, orc_h2. cbn. repeat split; intros; try reflexivity.
+    all: try (unfold qr; ring).
+    all: repeat constructor; unfold qr; reflexivity.
+  - vm_compute. reflexivity.
+Qed.
 
 (* non-vacuity *)
 Example C04_rr2_nonvacuous :
